@@ -183,6 +183,9 @@ type endCase struct{ reason string }
 
 // Sim is one simulated world (one generated case).
 type Sim struct {
+	// NoIDReuse: the application never lets a removed id join again (doc.go:
+	// an ID must be used only once). Precondition of the liveness check.
+	NoIDReuse bool
 	D     Drawer
 	W     WorldOpts
 	Nodes map[uint64]*Node
